@@ -27,7 +27,8 @@ THEOREMS_BY_PROP = {
             "DepLogic.C16.compare_incompatible_symm", "DepLogic.C16.compare_not_higher_both",
             "DepLogic.C16.manylinux_nested", "DepLogic.C16.beq_refl", "DepLogic.C16.beq_symm"],
     "C18": ["DepLogic.C18.wheel_roundtrip", "DepLogic.C18.bad_extension", "DepLogic.C18.bad_part_count",
-            "DepLogic.C18.aliases", "DepLogic.C18.splitC_joinDash"],
+            "DepLogic.C18.aliases", "DepLogic.C18.splitC_joinDash", "DepLogic.C18.platform_roundtrip",
+            "DepLogic.C18.manylinux_roundtrip", "DepLogic.C18.macos_roundtrip", "DepLogic.Lex.natOfDigits_toString"],
 }
 THEOREMS: list[str] = []
 
